@@ -262,6 +262,22 @@ pub fn gen(tier: &str, rng: &mut Rng, emit: &mut dyn FnMut(String)) {
             }
         }
     }
+    // wave 10 (C14-g): a bad '~' BEHIND word-sized runs of neighbour bytes of '/' and '~' ("/.", "/-", "/}", ...) at every alignment:
+    // every prefix of 8..=40 bytes of a SWAR pointer, closed by "~", "~x" or "~é" - the offsets a word-at-a-time scanner must get right
+    for p in crate::util::swar_pointers() {
+        for l in 8..=40usize {
+            if l > p.len() || !p.is_char_boundary(l) {
+                continue;
+            }
+            for tail in ["~", "~x", "~\u{e9}"] {
+                let t = format!("{}{tail}", &p[..l]);
+                emit(format!("door parse {}", hex(t.as_bytes())));
+                if l % 4 == 0 {
+                    emit(format!("door bufparse {}", hex(t.as_bytes())));
+                }
+            }
+        }
+    }
     let n = if tier == "thorough" { 30_000 } else { 2_000 };
     for i in 0..n {
         let mut s = super::token::random_text(rng, if i % 40 == 0 { 3000 } else { 30 });
